@@ -421,7 +421,7 @@ Proof.
   - destruct (dispatch k cid m) as [k' d]. cbn [fst snd]. destruct d.
     + unfold upd. destruct (c =? cid) eqn:E.
       * apply Z.eqb_eq in E. subst cid. unfold stat1. rewrite Z.eqb_refl.
-        destruct m; fin.
+        destruct m as [s|code s|n| | | | | ]; try fin; cbn [handle]; destruct (code =? 1); [destruct (c_comb (ch c))|]; fin.
       * assert (E' : cid =? c = false) by (rewrite Z.eqb_sym; exact E).
         unfold stat1. rewrite E'. destruct m; fin.
     + fin.
@@ -496,4 +496,133 @@ Lemma micro_atomic a b :
   let s2 := mrun s0 (prog_U ++ prog_T b) in
   (m_out s1 = a ++ b /\ m_err s1 = [] /\ m_comb s1 = true) /\
   (m_out s2 = a ++ b /\ m_err s2 = [] /\ m_comb s2 = true).
-Proof. cbn. rewrite app_nil_r. auto. Qed.
+Proof. cbn. rewrite ?app_nil_r. auto. Qed.
+
+(* ---- final forms ----------------------------------------------------------------------------- *)
+Lemma events_cons s o r : events s (o :: r) = snd (step s o) ++ events (fst (step s o)) r.
+Proof.
+  unfold events. cbn [run]. destruct (step s o) as [s1 e1]. cbn [fst snd].
+  destruct (run s1 r) as [s2 e2]. reflexivity.
+Qed.
+
+Lemma reads_err_none : forall ops s c, no_recv_err c ops -> reads_err c (events s ops) = [].
+Proof.
+  induction ops as [|o r IH]; intros [k ch] c N; [reflexivity|].
+  rewrite events_cons, reads_err_app, IH by (intros c' n Hin; apply (N c' n); right; exact Hin).
+  rewrite app_nil_r.
+  destruct o as [cid m|c0 n|c0 n|c0 b|c0]; cbn [step].
+  - destruct (dispatch k cid m); reflexivity.
+  - destruct (recv_out (ch c0) n) as [x [a|]]; reflexivity.
+  - assert (E : c0 =? c = false) by (apply Z.eqb_neq; apply (N c0 n); left; reflexivity).
+    destruct (recv_err (ch c0) n) as [x [a|]]; cbn; rewrite ?E; reflexivity.
+  - destruct (set_combine (ch c0) b); reflexivity.
+  - reflexivity.
+Qed.
+
+Lemma thm_stdout_general k ch ops c :
+  c_comb (ch c) = false -> never_combined c ops ->
+  OUT c (k, ch) ops = c_out (ch c) ++ data_of c (delivered k (msgs_of ops)).
+Proof. intros C N. exact (proj1 (plain_main ops k ch c C N)). Qed.
+
+Lemma thm_stderr_general k ch ops c :
+  c_comb (ch c) = false -> never_combined c ops ->
+  ERR c (k, ch) ops = c_err (ch c) ++ ext_of c (delivered k (msgs_of ops)).
+Proof. intros C N. exact (proj2 (plain_main ops k ch c C N)). Qed.
+
+Lemma thm_stdout k ch ops c :
+  well_addressed k (msgs_of ops) -> c_comb (ch c) = false -> never_combined c ops ->
+  OUT c (k, ch) ops = c_out (ch c) ++ data_of c (msgs_of ops).
+Proof. intros W C N. rewrite thm_stdout_general, delivered_all; auto. Qed.
+
+Lemma thm_stderr k ch ops c :
+  well_addressed k (msgs_of ops) -> c_comb (ch c) = false -> never_combined c ops ->
+  ERR c (k, ch) ops = c_err (ch c) ++ ext_of c (msgs_of ops).
+Proof. intros W C N. rewrite thm_stderr_general, delivered_all; auto. Qed.
+
+Lemma thm_combine_merge k ch ops c :
+  (c_comb (ch c) = true -> c_err (ch c) = []) ->
+  exists zo eo,
+    OUT c (k, ch) ops = c_out (ch c) ++ zo /\
+    Merge (data_of c (delivered k (msgs_of ops))) eo zo /\
+    Merge eo (ERR c (k, ch) ops) (c_err (ch c) ++ ext_of c (delivered k (msgs_of ops))).
+Proof. apply merge_main. Qed.
+
+Lemma thm_combine k ch ops c :
+  (c_comb (ch c) = true -> c_err (ch c) = []) ->
+  c_comb (final (k, ch) ops c) = true -> no_recv_err c ops ->
+  c_err (final (k, ch) ops c) = [] /\
+  exists zo,
+    OUT c (k, ch) ops = c_out (ch c) ++ zo /\
+    Merge (data_of c (delivered k (msgs_of ops)))
+          (c_err (ch c) ++ ext_of c (delivered k (msgs_of ops))) zo.
+Proof.
+  intros I F N.
+  assert (Hf : c_err (final (k, ch) ops c) = []) by (apply (inv_main ops k ch c I); exact F).
+  split; [exact Hf|].
+  destruct (merge_main ops k ch c I) as (zo & eo & H1 & H2 & H3).
+  unfold ERR in H3. rewrite reads_err_none, Hf in H3 by exact N. cbn in H3.
+  apply Merge_inv_nil_r in H3. subst eo. exists zo. auto.
+Qed.
+
+Lemma thm_combine_invariant k ch ops c :
+  (c_comb (ch c) = true -> c_err (ch c) = []) ->
+  c_comb (final (k, ch) ops c) = true -> c_err (final (k, ch) ops c) = [].
+Proof. intros I. exact (inv_main ops k ch c I). Qed.
+
+Lemma thm_combine_switch k ch c :
+  c_comb (ch c) = false ->
+  let ch1 := snd (fst (step (k, ch) (SetCombine c true))) c in
+  c_out ch1 = c_out (ch c) ++ c_err (ch c) /\ c_err ch1 = [] /\ c_comb ch1 = true /\
+  forall c', c' <> c -> snd (fst (step (k, ch) (SetCombine c true))) c' = ch c'.
+Proof.
+  intros C. cbn [step]. unfold set_combine. rewrite C. cbn [andb negb fst snd].
+  unfold upd. rewrite Z.eqb_refl. cbn. repeat split; auto.
+  intros c' Hne. apply Z.eqb_neq in Hne. rewrite Hne. reflexivity.
+Qed.
+
+Lemma thm_exit_status k ch ops c :
+  statuses c (delivered k (msgs_of ops)) <> [] ->
+  exit_ready (final (k, ch) ops c) = true /\
+  c_exit (final (k, ch) ops c) = last (statuses c (delivered k (msgs_of ops))) (c_exit (ch c)).
+Proof.
+  intros H. destruct (exit_main ops k ch c) as [E1 E2]. split; [|exact E1].
+  unfold exit_ready. rewrite E2 by (right; exact H). apply orb_true_r.
+Qed.
+
+Lemma thm_exit_status_one k ch ops c n :
+  well_addressed k (msgs_of ops) -> statuses c (msgs_of ops) = [n] ->
+  exit_ready (final (k, ch) ops c) = true /\ c_exit (final (k, ch) ops c) = n.
+Proof.
+  intros W H. rewrite <- (delivered_all k _ W) in H.
+  destruct (thm_exit_status k ch ops c) as [E1 E2]; [rewrite H; discriminate|].
+  split; [exact E1|]. rewrite E2, H. reflexivity.
+Qed.
+
+Lemma thm_unknown_channel k ch cid m :
+  memz cid (k_reg k) = false ->
+  (forall c, snd (fst (step (k, ch) (Msg cid m))) c = ch c) /\
+  snd (step (k, ch) (Msg cid m)) = [] /\
+  (memz cid (k_seen k) = false -> k_active (fst (fst (step (k, ch) (Msg cid m)))) = false).
+Proof.
+  intros H. destruct (unknown_step k ch cid m H) as (H1 & H2 & H3).
+  repeat split; auto. intros c. rewrite H1. reflexivity.
+Qed.
+
+Lemma thm_unknown_never k l cid :
+  memz cid (k_reg k) = false ->
+  (forall m, ~ In (cid, m) (delivered k l)) /\
+  data_of cid (delivered k l) = [] /\ ext_of cid (delivered k l) = [] /\
+  statuses cid (delivered k l) = [].
+Proof.
+  intros H. split; [|apply projections_unregistered; exact H].
+  intros m Hin. apply delivered_registered in Hin. destruct Hin as [_ Hin]. congruence.
+Qed.
+
+Lemma thm_stopped k l : k_active k = false -> delivered k l = [].
+Proof. apply delivered_inactive. Qed.
+
+Lemma thm_sender grants s c :
+  let l := fst (sendall grants s) in
+  let rest := snd (sendall grants s) in
+  concat l ++ rest = s /\ data_of c (map (fun p => (c, Data p)) l) = concat l.
+Proof. cbv zeta. split; [apply sendall_concat|apply data_of_own]. Qed.
